@@ -2,4 +2,4 @@
 From Coq Require Import Extraction ExtrOcamlBasic.
 From PV Require Import Num Model_diag Entry_diag.
 Extraction Language OCaml.
-Extraction "model_diag.ml" run_scatter run_pgr run_coaxial run_bingham run_lcg run_fse run_fse_angle.
+Extraction "model_diag.ml" run_scatter run_pgr run_coaxial run_bingham run_lcg run_fse run_fse_angle run_session.
